@@ -11,7 +11,7 @@ CHECKS = {
 }
 CHECKS.update({
  "C01": ("3/C01", "Every message of the reported bounded spaces (all sequences of <= k placed entries over a name/record alphabet forcing every compression shape, all modes, rollback byte-position sweeps, section sizes to 300) is built by the real encoder and decoded by the library and by an independent strict RFC 1035 decoder; exhaustive within those spaces.",
-         "Trusted: /verif/mc/wire.py (independent decoder). Inputs outside the alphabets are not executed."),
+         "Trusted: /verif/mc/wire.py (independent decoder). Inputs outside the alphabets are not executed. One open known finding (a name over 255 octets is emitted) is reported as KNOWN-FINDING."),
  "C02": ("3/C02", "Every datagram of the reported spaces (all bodies over an 11-byte adversarial alphabet to length 5-7 under 30 headers, structurally enumerated records, all compression graphs on <= 4-5 names, chain/stack/length families, all single edits of 15 seed messages) is decoded by the real decoder under a profile-event budget and compared with a strict parser where that accepts.",
          "Trusted: the strict parser (it only shrinks the agreement set), the call budget constants. Random byte strings are not sampled."),
  "C06": ("3/C06", "Same exhaustive history space as C05, x 5 listener configurations; per-datagram listener contract checked with cache snapshots taken inside the callbacks against the s.10 model.",
@@ -24,25 +24,25 @@ CHECKS.update({
          "Trusted: the identity model as read from the property statement."),
 })
 CHECKS.update({
- "C03": ("3/C03", "All register/update/unregister histories to the reported depth on a real instance, de-duplicated by canonical registry state (incl. empty buckets and memo slots); in every new state the full query alphabet (single questions x 8 types over registered/re-cased/unregistered names, question pairs, known-answer lists at TTL half-1/half/half+1/full) is answered by the real decoder + QueryHandler and compared with a reference responder.",
+ "C03": ("3/C03", "All register/update/unregister histories to the reported depth on a real instance, de-duplicated by canonical registry state (incl. empty buckets and memo slots; updates in place, through a new object, moving the instance between (sub)types; retired objects registered again); in every new state the full query alphabet (single questions x 8 types over registered/re-cased/unregistered names, question pairs, known-answer lists at TTL half-1/half/half+1/full) is answered by the real decoder + QueryHandler and compared with a reference responder; a front-door pass delivers queries through the listener's datagram path as well.",
          "Trusted: /verif/mc/models/responder_model.py. ANY on host names and NSEC known answers are outside the completeness claim (not generated)."),
- "C04": ("3/C04", "All histories of response datagrams, clock steps (1 ms .. 3 h) and browser start/cancel to the reported depth on a live instance with AsyncServiceBrowser, de-duplicated by canonical state; alternation automaton per (type, instance), live set == cached pointer set at every quiescent point, cache content observed from inside add_service.",
+ "C04": ("3/C04", "All histories of response datagrams, clock steps (1 ms .. 3 h) and browser start/cancel to the reported depth on a live instance with AsyncServiceBrowser, de-duplicated by canonical state (datagrams incl. changed records before a goodbye and the same pointer withdrawn and asserted in one datagram); alternation automaton per (type, instance), live set == cached pointer set at every quiescent point, cache content observed from inside add_service.",
          "Trusted: virtual loop/clock; histories respect the restrictions of the quantifier (exact owner names, no case twins in one datagram, no browser start over expired-unpurged pointers)."),
 })
 CHECKS.update({
- "C08": ("3/C08", "Full product grid (9 query kinds x arrival offsets 1..1199 ms before the withdrawal x jitter x 3 registry shapes x unregister/async_close/sync close x second query) executed on a real instance; the withdrawing host's trace must show exactly three complete goodbyes 125 ms apart and no withdrawn record with TTL>0 afterwards for 6 s.",
+ "C08": ("3/C08", "Full product grid (10 query kinds x arrival offsets 1..1199 ms before the withdrawal x jitter x 5 registry shapes incl. capitalised names x unregister / unregister-all / async close / sync close / sync unregister (+ close) x second query x re-created description object x IPv4/IPv6-only host) executed on a real instance; the withdrawing host's trace must show exactly three complete goodbyes 125 ms apart and no withdrawn record with TTL>0 afterwards for 6 s.",
          "Trusted: virtual loop/link; API calls are sequential (operation model of the statement); answers between the first and third goodbye are not judged."),
  "C10": ("3/C10", "The complete tree of learn/refresh/re-case/withdraw histories (depth 2, thorough 3) x gap menu around 0/1 s/20 s/40 s and 75/85/95/100 % of the TTLs x browser delay 1/10/60 s x forced question types, plus re-announcements whose 75 % instant coincides within a delay with the armed 75/85/95 % query, each run to expiry of every record on a real AsyncServiceBrowser; query-trace oracle for start-up schedule, refresh windows, rate limit, unexplained queries, liveness and armed timer.",
          "Trusted: window tolerances listed in the evidence assumptions (one delay early, accumulated lateness)."),
 })
 CHECKS.update({
- "C11": ("3/C11", "Full product grid (16 question mixes QU/QM x probe x id x source port x v4/v6 source x 14 ages of the host's last multicast around a quarter of 60/120/300/4500 s TTLs x single/dual sockets) on a real instance; routing and format rules judged per answer record on the decoded trace.",
+ "C11": ("3/C11", "Full product grid (21 question mixes QU/QM x probe x id x source port x v4/v6 source x 15 ages of the host's last multicast around a quarter of 60/120/300/4500 s TTLs x single / dual / IPv6-only sockets, identical copies of QU queries 200/800 ms earlier) on a real instance; routing and format rules judged per answer record on the decoded trace.",
          "Trusted: virtual link socket model (multicast queries arrive on the listen socket, legacy unicast on the respond socket); equality with ttl/4 accepts both outcomes."),
- "C12": ("3/C12", "Full product per family on a real instance: single queries x all 101 jitter values x sighting ages 999/1000/1001/5000 ms; all 2-query (thorough: 3-query) schedules over the gap grid around 0/20/120/500/1000/1120/1200 ms x jitter per draw; TC trains of 1-4 packets x continuation gaps around 400/500 ms incl. the timer instant x 1/2 sources; per-record timing envelope on the trace.",
+ "C12": ("3/C12", "Full product per family on a real instance: single queries x all 101 jitter values x sighting ages 999/1000/1001/5000 ms; all 2- and 3-query schedules and a 5-query family (groups emptied by a send at the head of the queue) over the gap grid around 0/20/120/500/1000/1120/1200 ms x jitter per draw; TC trains of 1-4 packets x continuation gaps around 400/500 ms incl. the timer instant x 1/2 sources; per-record timing envelope on the trace.",
          "Trusted: the envelope definitions in the evidence assumptions; one open known finding (duplicate guard hides a sighting) is reported as KNOWN-FINDING."),
 })
 CHECKS.update({
- "C13": ("3/C13", "Full product per family on real instances: browser start-up queries x caches of 0..300 pointer records in TTL classes at/around half TTL, expired-unpurged and floored x forced types; a second asker (own browser or question heard as responder) at gaps 0/1/500/998/999/1000/1001/5000 ms x known-answer relation x question type; service-info lookups x 27 cache states x 4 timeouts x forced types x jitter; oracle on decoded query datagrams (questions, QU bits, known answers with remaining TTL, TC bits, spacing).",
+ "C13": ("3/C13", "Full product per family on real instances: browser start-up queries x caches of 0..300 pointer records in TTL classes at/around half TTL, expired-unpurged and floored x forced types; a second asker (own browser, QU or QM, or question heard as responder alone / among other questions / as a truncated train) at gaps 0/1/500/998/999/1000/1001/5000 ms x known-answer relation x question type; service-info lookups x 27 cache states x 4 timeouts x forced types x jitter; oracle on decoded query datagrams (questions, QU bits, known answers with remaining TTL, TC bits, spacing).",
          "Trusted: the in-check model of which cached records have more than half their TTL left; remaining TTL compared with one second tolerance."),
  "C18": ("3/C18", "Full product grid: 256 cache states (SRV/TXT/A/AAAA in absent/fresh/stale/expired-unpurged) x 3 timeouts x arrival instant of each missing record (never, 50, 250, timeout-1, timeout, timeout+1 ms) x forced type, plus re-used lookup objects, objects that already know the host, and lookups preceded by another lookup of the same instance (question history populated), on a real AsyncServiceInfo.async_request; return time, success iff SRV and an unexpired address were known in time, field provenance (expired copies carry different rdata), query trace.",
          "Trusted: missing records arrive one per datagram; equality with the deadline accepts both results; cache-flush grace second as in C06."),
@@ -50,12 +50,12 @@ CHECKS.update({
 CHECKS.update({
  "C16": ("3/C16", "The complete tree of histories of <= 2 (thorough 3) datagrams over a 16-datagram query/response alphabet x gaps 1/500/1001 ms x three ages of the host's own records x jitter low/high; every history is executed three times in identical worlds (plain / QU-free datagrams doubled / all doubled) and traces and callback logs are compared exactly.",
          "Trusted: constant jitter per triple. One open known finding (duplicated QU queries are processed twice) is reported as KNOWN-FINDING; any other difference is a violation."),
- "C17": ("3/C17", "For three busy scenarios the reference run yields every instant at which a timer or datagram was processed; close is requested at each of them and 1 ms before/after, on a 25 ms grid while registrations are in flight and 0..11 loop iterations after construction, via async_close and via Zeroconf.close from outside the loop; then a second close, 3 h of virtual time and 9 rounds of fresh traffic. Oracle: goodbyes for everything registered, sockets closed, no datagram, no listener/browser callback, no exception afterwards.",
-         "Trusted: caller-thread seam for the sync API; AsyncServiceBrowser only (no OS threads)."),
+ "C17": ("3/C17", "For three busy scenarios the reference run yields every instant at which a timer or datagram was processed; close is requested at each of them and 1 ms before/after, on a 25 ms grid while registrations are in flight and 0..11 loop iterations after construction, via async_close and via Zeroconf.close from outside the loop, plus the sync API's threaded ServiceBrowser with a callback still running when close is called (real thread, real seconds - the one part outside the virtual scheduler); then a second close, 3 h of virtual time and 9 rounds of fresh traffic. Oracle: goodbyes for everything registered, sockets closed, no datagram, no listener/browser callback, no exception afterwards.",
+         "Trusted: caller-thread seam for the sync API; OS threads only in the threaded-browser points. One open known finding (a registration finishing during close is announced and never withdrawn) is reported as KNOWN-FINDING."),
 })
 CHECKS.update({
- "C07": ("3/C07", "Iterative deviation bounding on 2- and 3-host scenarios of real instances over the simulated link: every (datagram, receiver) delivery chooses among 1 ms / 100 ms / duplicate / drop (one drop per execution), every library jitter draw between low and high; all executions with <= 2 (thorough <= 3 on the 2-host scenarios) non-default choices; browser live sets must equal what is registered 15 s after each change and lookups made from add_service must resolve the advertised data.",
-         "Trusted: virtual link (fixed 100 us loop-back); API calls sequential per instance; reported deviation bound completed."),
+ "C07": ("3/C07", "Iterative deviation bounding on 2- and 3-host scenarios of real instances over the simulated link (late and multicast-asking joiners, updates, withdrawal right after a browser starts, IPv6-only and multi-socket hosts): every (datagram, receiver) delivery chooses among 1 ms / 100 ms / duplicate / drop (one drop per execution), every library jitter draw between low and high; all executions with <= 2 (thorough <= 3 on the 2-host scenarios) non-default choices; browser live sets must equal what is registered 15 s after each change and lookups made from add_service must resolve the advertised data.",
+         "Trusted: virtual link (fixed 100 us loop-back); API calls sequential per instance; reported deviation bound completed. One open known finding (multi-socket hosts: repeated goodbyes dropped as duplicates after a stale answer) is reported as KNOWN-FINDING."),
  "C09": ("3/C09", "Full product grid: conflicting pointer record at -100..500 ms around the three probe instants (incl. 174/175/176 and 349/350/351) x renaming allowed or not x pre-populated chains of taken '-N' names x second conflict during the renamed cycle x address mix x custom TTLs x description objects used before (records already built, registered and withdrawn) x ttl= argument; the conflict is delivered by a scripted peer or by a second real instance owning the name behind a link with one-way delay 1/50/100/150 ms; probe/announcement schedule and content, exception or final name, no record of the conflicting name ever sent.",
          "Trusted: equality with the last probe check accepts both outcomes; the host answering its own looped-back third probe is tolerated."),
  "C15": ("3/C15", "Adversarial corpora (all single edits of seed messages, compression graphs, chain/stack families, oversize datagrams, every echo-hazard label length 1..63 x 5 fill bytes in legacy-unicast queries, responses whose rdata names cannot be re-encoded) delivered to a busy real instance: fresh world per datagram from 4 source tuples, streams of 50 per world, all ordered pairs of class representatives, and a waiter (lookup / registration) cancelled 0..2 loop iterations before or after a valid datagram; afterwards the loop's exception handler must be empty, a canary query answered and a canary announcement delivered to the browser.",
